@@ -38,14 +38,14 @@ MIN_REACH = {
     "harvester_syncs_with_a_per_call_engine": {"quick": 20, "thorough": 300},
     "loads_with_create_new": {"quick": 100, "thorough": 1500},
     "merges_adding_fractional_labels_to_integer_axis": {"quick": 4, "thorough": 60},
-    "merges_adding_longer_labels_to_a_string_axis": {"quick": 3, "thorough": 50},
+    "merges_adding_longer_labels_to_a_string_axis": {"quick": 2, "thorough": 50},
     "merges_widening_a_narrow_stored_axis": {"quick": 6, "thorough": 100},
     "second_merges_giving_precedence_to_stored_complex_data": {"quick": 10, "thorough": 150},
     "listings_checked": {"quick": 500, "thorough": 8000},
     "harvester_name_checks": {"quick": 50, "thorough": 800},
     "harvester_deletes_with_backup": {"quick": 12, "thorough": 200},
     "directories_whose_name_contains_an_extension": {"quick": 30, "thorough": 500},
-    "harvesters_built_by_the_label_decorator": {"quick": 10, "thorough": 150},
+    "harvesters_built_by_the_label_decorator": {"quick": 7, "thorough": 150},
     "loads_into_memory_asked_for_explicitly": {"quick": 30, "thorough": 500},
 }
 TIME_BUDGET = {"quick": 400, "thorough": 3400}
